@@ -38,14 +38,15 @@ def exec_route(spec, env):
     p = rt.make_point(coords(supplied, env))
     reuse = spec.get("reuse_seq")
     for r in spec["routes"]:
-        if reuse:
+        if reuse and r in rt.ROUTE_PARTS:
             # one long-lived object queried repeatedly, with the expression used through other entry points in between
             def pt(pn):
                 return p if pn == "" else rt.make_point(coords(spec.get("pre_supplied", vs), env, pn + "_"))
             steps = [("obj", pt(st[1])) if st[0] == "obj" else ("expr", st[1], pt(st[2])) for st in reuse]
             outs.append(rt.run_route_reusing(r, e, spec.get("var"), steps, p))
         else:
-            outs.append(rt.run_route(r, e, spec["vars"] if r.endswith("_all") else spec.get("var"), p))
+            v = spec["vars"] if r.endswith("_all") else ([spec["var"], spec["var2"]] if r.startswith("synth2") else spec.get("var"))
+            outs.append(rt.run_route(r, e, v, p))
     return outs
 
 
